@@ -1,5 +1,7 @@
 package h
 
+import "strings"
+
 // Replay checks per property: each takes one case exported by TLC (the JSON
 // record printed by the MC module's Export constraint) and returns a verdict.
 var Replay = map[string]func(c Node) Verdict{
@@ -24,6 +26,42 @@ func checkC01(c Node) Verdict {
 	v.Nontrivial = len(want) > 0 && len(want) < n // the predicate separates the rows
 	if !v.OK {
 		return v
+	}
+	// the same table with its numbers held in other Go numeric kinds (one scalar kind per column)
+	arith := false
+	for _, f := range Features(c["q"].(Node)) {
+		if strings.HasPrefix(f, "bin:") || strings.HasPrefix(f, "un:") {
+			arith = true // arithmetic accepts float64 operands only: not part of this property
+		}
+	}
+	if (c["fam"] == "num" || c["fam"] == "ac") && !arith {
+		q := c["q"].(Node)
+		for _, kind := range []string{"int", "int64", "float32", "uint8"} {
+			doc := FromTagged(c["doc"]).(map[string]any)
+			for _, r := range doc["t"].([]any) {
+				row := r.(map[string]any)
+				for k, val := range row {
+					if f, ok := val.(float64); ok && f >= 0 && f == float64(int64(f)) {
+						switch kind {
+						case "int":
+							row[k] = int(f)
+						case "int64":
+							row[k] = int64(f)
+						case "float32":
+							row[k] = float32(f)
+						default:
+							row[k] = uint8(f)
+						}
+					}
+				}
+			}
+			out := Run(doc, Style{}.Query(q), false)
+			v.Execs++
+			sig := append(Features(q), "kind:"+kind)
+			if out.Panic != nil || out.Err != nil || !Equal(any(out.Rows), any(want)) {
+				return fail("result", v.SQL, sig, "with the column held as %s: want %s got %s", kind, Canon(any(want)), out.Describe())
+			}
+		}
 	}
 	// a predicate and its negation partition the rows: both statements run on one and
 	// the same document object, the negated one second
